@@ -25,13 +25,15 @@ func init() {
 func inputSources(ctx *fw.Ctx, nStressQuick, nStressThorough int) []corpus.Source {
 	srcs := baseSources()
 	srcs = append(srcs, corpus.StressSources(ctx.Rand("stress"), ctx.Pick(nStressQuick, nStressThorough), 10, 300)...)
-	srcs = append(srcs, mgenSources(ctx, ctx.Pick(150, 3000))...)
+	srcs = append(srcs, mgenSources(ctx, ctx.Pick(500, 8000))...)
 	return srcs
 }
 
 func genC02(ctx *fw.Ctx) []fw.Case {
 	var cases []fw.Case
-	for _, s := range inputSources(ctx, 40, 600) {
+	srcs := inputSources(ctx, 100, 1500)
+	srcs = append(srcs, tortureSources(ctx, ctx.Pick(100, 2000))...)
+	for _, s := range srcs {
 		s := s
 		cases = append(cases, fw.Case{ID: s.ID, Run: func(r *fw.Rec) { c02Source(r, s) }})
 	}
